@@ -691,7 +691,7 @@ class Sym:
         out = []
         if node is not None and ctx is not None and not isinstance(base, (Const, Coll, BoolV)):
             sites = [(ctx, node)]
-            if isinstance(base, Opq) and base.kind == "attr" and base.key in self.__dict__.get("_origin", {}):
+            if isinstance(base, Opq) and base.kind in ("attr", "param") and base.key in self.__dict__.get("_origin", {}):
                 sites.append(self._origin[base.key])  # e.g. the result of a generic `_required(self._x, msg)` helper
             for c_, n_ in sites:
                 try:
@@ -2371,6 +2371,24 @@ class Sym:
         it = self.iterate(it, s.iter, st, ctx, s.body, complete)
         if st.path[-1:] == [FALSE]:
             return None
+        if isinstance(it, Ref) and it.cls in self.repo.classes:
+            nxt = self.repo.lookup_method(self.repo.classes[it.cls], "__next__")
+            if nxt is not None and not nxt.is_abstract and not s.orelse:
+                # an iterator object of the repository: `for x in it: body` is
+                #   while True:
+                #       try: x = it.__next__()
+                #       except StopIteration: break
+                #       body
+                tmp = f"<iterator#{self.fresh()}>"
+                st.vars[tmp] = it
+                call = ast.Call(func=ast.Attribute(value=ast.Name(id=tmp, ctx=ast.Load()), attr="__next__", ctx=ast.Load()), args=[], keywords=[])
+                fetch = ast.Try(body=[ast.Assign(targets=[s.target], value=call)], handlers=[ast.ExceptHandler(type=ast.Name(id="StopIteration", ctx=ast.Load()), name=None, body=[ast.Break()])], orelse=[], finalbody=[])
+                loop = ast.While(test=ast.Constant(value=True), body=[fetch, *s.body], orelse=[])
+                for x in ast.walk(loop):
+                    if not hasattr(x, "lineno"):
+                        ast.copy_location(x, s)
+                ast.fix_missing_locations(loop)
+                return self._s_While(loop, st, ctx)
         items = self.exact_items(it, st)
         if items is not None and len(items) <= MAX_UNROLL:
             cur: State | None = st
@@ -2487,9 +2505,11 @@ class Sym:
         n = self.fresh()
         hc = HandlerCtx(s, types, n=n)
         self.handlers.append(hc)
+        first_event = len(self.events)
         try:
             # whatever leaves the body normally (falls through, returns) did so without a handler having been entered
-            end = self.block(s.body, st.fork(f_and([f_not(atom(f"exc#{n}.{i}")) for i in range(len(s.handlers))])), ctx)
+            # (handlers for StopIteration alone are mostly entered from explicit raises only, see below: no atom for them)
+            end = self.block(s.body, st.fork(f_and([f_not(atom(f"exc#{n}.{i}")) for i in range(len(s.handlers)) if not set(types[i]) <= {"StopIteration", "StopAsyncIteration"}])), ctx)
         finally:
             self.handlers.pop()
         if end is not None and s.orelse:
@@ -2498,9 +2518,14 @@ class Sym:
         for i, h in enumerate(s.handlers):
             # entered from an explicit raise that was caught, or from an exception raised by something opaque
             starts = [c_st for (hi, c_st, _n) in hc.caught if hi == i]
-            generic = st.fork(atom(f"exc#{n}.{i}"))
-            self.havoc(s.body, generic, ctx, n)
-            starts.append(generic)
+            # StopIteration only comes out of next() / an iterator that was not followed - not out of arbitrary library calls
+            only_explicit = set(types[i]) <= {"StopIteration", "StopAsyncIteration"} and not any(
+                ev.kind == "call" and (ev.name in ("next", "__next__", "send") or ev.recv_type[0] == "fn" or ev.recv_type == ("unknown",)) for ev in self.events[first_event:]
+            )
+            if not only_explicit:
+                generic = st.fork(atom(f"exc#{n}.{i}"))
+                self.havoc(s.body, generic, ctx, n)
+                starts.append(generic)
             fr = self.frames[-1]
             before = (len(fr.returns), len([o for o in self.outcomes if o.kind in ("return", "verdict")]))
             falls = False
@@ -2544,6 +2569,9 @@ class Sym:
             else:
                 vars_[p.arg] = Opq(p.arg, frozenset({p.arg}), kind="param")
         st = State(vars_, {}, [])
+        for prm in fi.params:
+            # an annotated parameter of the entry point keeps its type when it is handed to unannotated helpers
+            self.__dict__.setdefault("_origin", {}).setdefault(prm.arg, (fi, ast.copy_location(ast.Name(id=prm.arg, ctx=ast.Load()), fi.node)))
         if init is not None:
             init(self, st)
         self.entry = fi
